@@ -208,8 +208,24 @@ type Region struct {
 	// (default false = TiKV's right-derive-when-split).
 	LeftDerive bool
 
+	// LeaderCopy selects what ToRegionInfo passes as the leader object, i.e. the
+	// heartbeat's separate `leader` message (core.RegionFromHeartbeat hands it to
+	// NewRegionInfo as is): "" = the very entry of the peer list (what pd's own
+	// tests do); "bare" = a separate message carrying only Id and StoreId (role
+	// zero = Voter); "stale" = a separate copy whose role is the one before the
+	// joint state was entered (DemotingVoter -> Voter, IncomingVoter -> Learner).
+	// The peer list stays the source of truth for roles in every mode.
+	LeaderCopy string
+
 	foreign bool
 }
+
+// Leader-copy modes (Region.LeaderCopy).
+const (
+	LeaderFromPeerList = ""
+	LeaderBare         = "bare"
+	LeaderStaleRole    = "stale"
+)
 
 // NewRegion creates the simulator state from a spec. ids may be nil (a private
 // allocator above every id of the spec is created).
@@ -1079,7 +1095,21 @@ func (r *Region) ToRegionInfo() *core.RegionInfo {
 	for i, p := range r.Peers {
 		mp := m.Peers[i]
 		if p.ID == r.Leader && r.Leader != 0 {
-			leader = mp
+			switch r.LeaderCopy {
+			case LeaderBare:
+				leader = &metapb.Peer{Id: p.ID, StoreId: p.Store}
+			case LeaderStaleRole:
+				role := p.Role
+				switch role {
+				case DemotingVoter:
+					role = Voter
+				case IncomingVoter:
+					role = Learner
+				}
+				leader = &metapb.Peer{Id: p.ID, StoreId: p.Store, Role: role.Meta()}
+			default:
+				leader = mp
+			}
 		}
 		if p.Pending {
 			pending = append(pending, mp)
